@@ -1,6 +1,10 @@
 package c16
 
-import "verif/internal/ev"
+import (
+	"os"
 
-// interleavings is filled in by the scheduler-based exploration (engine E3).
-var interleavings = func(r *ev.Run) {}
+	"verif/internal/ev"
+)
+
+// interleavings runs the scheduler-based exploration (engine E3) in the instrumented binary.
+var interleavings = func(r *ev.Run) { r.RunSub(os.Getenv("VERIF_INSTR_BIN"), "C16I", "interleavings") }
